@@ -83,11 +83,15 @@ def cmd_detect(i, tier='quick', in_repo=False):
         assert rc == 0, out
         target = wt
         env['PLOTINK_REPO'] = wt
+    evp = os.path.join(VERIF, 'evidence', f'{prop}.json')
+    saved_ev = open(evp).read() if os.path.exists(evp) else None
     try:
         rc, out = sh(['git', '-C', target, 'apply', os.path.join(d, 'patch.diff')])
         assert rc == 0, out
         rc, out = sh(['./check', prop, '--tier', tier], cwd=VERIF, timeout=7200, env=env)
     finally:
+        if saved_ev is not None:   # the committed evidence must come from runs against /repo itself
+            open(evp, 'w').write(saved_ev)
         if in_repo:
             sh(['git', '-C', REPO, 'checkout', '--', '.'])
         else:
